@@ -128,6 +128,10 @@ def gen_template(r):
                 piece.append(('lit', r.choice(['-t', '.html', '.x'])))
             statics.append(piece)
     nalt = r.choice([1, 2, 2, 3, 3, 4])
+    # a template without brackets: its last name is the wildcard (one alternative)
+    implicit = r.random() < 0.12
+    if implicit:
+        nalt = 1
     pj = r.random() < 0.15
     alts = [gen_piece(r, exclude=('jobname',) if pj else ()) for _ in range(nalt)]
     if r.random() < 0.6:
@@ -136,12 +140,15 @@ def gen_template(r):
     if pj:
         prefix = [('var', 'jobname', None, True), ('lit', '-')]
     suffix = [('lit', r.choice(['', '', '.html', '-z', '.h']))]
-    return {'statics': statics, 'alts': alts, 'prefix': prefix, 'suffix': suffix}
+    return {'statics': statics, 'alts': alts, 'prefix': prefix, 'suffix': suffix, 'implicit': implicit}
 
 
 def print_template(t, r):
     parts = [print_piece(s, r) for s in t['statics']]
     sep = lambda: r.choice([',', ', ', ' , ', ',  '])
+    if t.get('implicit'):
+        parts.append(print_piece(t['prefix'] + t['alts'][0] + t['suffix'], r))
+        return r.choice([' ', '  ']).join(parts)
     w = print_piece(t['prefix'], r) + r.choice(['[', '[ ']) + ''
     alts = [print_piece(a, r) for a in t['alts']]
     body = alts[0]
